@@ -25,8 +25,8 @@ C20Specs == { SdTP,                                                             
                                  Sd("Chrome-100", TRUE, <<>>, FALSE, TRUE) }                          \* ticket only, custom, no PreferSkip
                   ELSE {})
 C20Cfgs == { c \in [sd : C20Specs, srvmax : {771, 772}, hrr : BOOLEAN, cfgcache : BOOLEAN, cached : BOOLEAN, origin : {"prev", "forged"}] :
-               /\ c.hrr => (c.srvmax = 772 /\ Deep)
-               /\ ~c.cached => Deep
+               /\ c.hrr => (c.srvmax = 772 /\ Deep /\ c.cfgcache /\ c.cached)
+               /\ ~c.cached => (Deep /\ c.cfgcache /\ c.origin = "prev")
                \* quick tier: SetSessionCache and forged sessions are exercised on the ticket+psk specs only
                /\ (~Deep /\ ~c.cfgcache) => c.sd = SdTP
                /\ (~Deep /\ c.origin = "forged") => (c.sd.base = "Chrome-100_PSK" /\ c.sd.drop = <<>> /\ c.cfgcache) }
